@@ -25,7 +25,9 @@ def real_to_spec(node):
         if isinstance(t, st.Identifier):
             return ["id", t.name]
         if isinstance(t, (tuple, list)):
-            return ["tuple" if isinstance(t, tuple) else "list!", [term(x) for x in t]]
+            # pydantic's tuple validator is shallow: a nested tuple stays the list the grammar action built.  Either
+            # container is a faithful carrier of the members; the generator must render both as tuples (generator link)
+            return ["tuple", [term(x) for x in t]]
         return ["lit", t]
 
     def pred(p):
@@ -366,4 +368,32 @@ def model_probe(req):
                 out.append({"outcome": "same" if (same_type and same_val) else "coerced", "type": type(got).__name__, "repr": repr(got)[:60]})
         except BaseException as e:   # noqa
             out.append({"outcome": "error", "exc": type(e).__name__})
+    return out
+
+
+@register("parse_oracle")
+def parse_oracle(req):
+    """CPython's own parser as the decision procedure for template obligations: parse `real` and `expected` texts of
+    each case and compare the ASTs (ast.dump, no positions)"""
+    out = []
+    for c in req["cases"]:
+        r = {}
+        for side in ("real", "expected"):
+            try:
+                mode = c.get("mode", "exec")
+                tree = pyast.parse(c[side], mode="exec" if mode.startswith("exec") else mode)
+                if mode == "exec-sortparams":
+                    # parameters are only ever passed by keyword: their order is immaterial
+                    for n in pyast.walk(tree):
+                        if isinstance(n, pyast.FunctionDef):
+                            n.args.args.sort(key=lambda a: a.arg)
+                        if isinstance(n, pyast.Call):
+                            n.keywords.sort(key=lambda k: k.arg or "")
+                r[side] = pyast.dump(tree)
+            except SyntaxError as e:
+                r[side] = "SyntaxError: %s (line %s)" % (e.msg, e.lineno)
+            except (ValueError, RecursionError, MemoryError) as e:
+                r[side] = "%s: %s" % (type(e).__name__, e)
+        r["same"] = r["real"] == r["expected"] and not r["real"].startswith(("SyntaxError", "ValueError"))
+        out.append(r)
     return out
